@@ -84,6 +84,36 @@ func genHist(prop string, seed uint64, tier string) *Scenario {
 	if len(menu) == 0 {
 		menu = arithOps
 	}
+	// focus runs (swarm): one kernel family with constructed operands
+	focus := ""
+	if r.chance(0.12) {
+		focus = r.pickS("div", "div", "mul", "sqrt")
+		n := r.rangeI(2, 24)
+		if sc.Knobs == [4]int{} && r.chance(0.5) {
+			n = r.rangeI(90, 230) // shipped thresholds: recursive division needs 100+ word divisors
+		}
+		m := r.rangeI(1, 2*n)
+		u, v := r.genDivision(n, m)
+		mk := func(w []uint64) VarSpec {
+			return VarSpec{Form: 1, Words: w, Exp: int32(r.rangeI(-20, 20)), Prec: uint32(len(w) * wordDigits), Mode: uint8(r.intn(6)), Neg: r.chance(0.3)}
+		}
+		sc.Vars[0], sc.Vars[1] = mk(u), mk(v)
+		for i := 2; i < nv; i++ {
+			// receivers: precision around the quotient length, sometimes dirty
+			sc.Vars[i].Prec = uint32((m + r.rangeI(-1, 3)) * wordDigits)
+			if sc.Vars[i].Prec < 1 {
+				sc.Vars[i].Prec = 1
+			}
+		}
+		switch focus {
+		case "div":
+			menu = []string{"Quo", "Quo", "Quo", "Quo", "Set", "SetPrec", "Mul"}
+		case "mul":
+			menu = []string{"Mul", "Mul", "Mul", "FMA", "Set", "SetPrec"}
+		case "sqrt":
+			menu = []string{"Sqrt", "Sqrt", "Mul", "Set", "SetPrec"}
+		}
+	}
 	nanRate := r.pick(0, 0, 5, 15, 30) // percent of arithmetic steps drawn from the invalid table
 	n := r.rangeI(3, 14)
 	if tier == "thorough" && r.chance(0.3) {
@@ -118,6 +148,15 @@ func genHist(prop string, seed uint64, tier string) *Scenario {
 		}
 		if op.Name == "MantExp" && r.chance(0.2) {
 			op.Z = -1
+		}
+		if focus == "div" && op.Name == "Quo" && r.chance(0.7) {
+			op.A = []int{0, 1} // the constructed pair
+			switch r.intn(6) {
+			case 0:
+				op.Z = 0
+			case 1:
+				op.Z = 1
+			}
 		}
 		genParams(r, sc, &op)
 		ts.Ops = append(ts.Ops, op)
@@ -460,6 +499,10 @@ func runHist(sc *Scenario) *Outcome {
 	}
 	if v := violationFromReport(sc, rep, "history"); v != nil {
 		out.Violation = v
+		return out
+	}
+	if viol != nil && viol.Class == "infra-shadow-timeout" {
+		out.Infra = "watchdog: " + viol.Msg
 		return out
 	}
 	out.Violation = viol
